@@ -4,6 +4,7 @@ import (
 	"fmt"
 	"go/types"
 	"os"
+	"sort"
 	"strings"
 
 	"golang.org/x/tools/go/ssa"
@@ -530,4 +531,34 @@ func runC08(c *Checker) {
 	c.trust("go/ssa + go/types (x/tools v0.29.0)", "E1 abstract interpreter", "bytes.Buffer model (bufmodel.go)", "reference syntax in s35spec.go (SCTE 35 2019 section 9)")
 	c.runS35Decode(c.Tier == "thorough")
 	c.runS35Reject()
+}
+
+// changedSince lists the cells of objects that already existed in snap (a
+// clone of an earlier state of the same analysis) whose value differs now.
+func (n *nav) changedSince(snap *State) []string {
+	var out []string
+	for o, m := range n.st.cells {
+		if n.st.born[o] && !snap.born[o] {
+			continue
+		}
+		for k, v := range m {
+			if old, ok := snap.cells[o][k]; ok && old == v {
+				continue
+			}
+			t := n.in.leafType(o, k)
+			if t == nil {
+				continue
+			}
+			if !sameVal(n.in.loadPath(snap, o, k, t), v) {
+				out = append(out, fmt.Sprintf("%s[%s]", o.Name, k))
+			}
+		}
+	}
+	for o, e := range n.st.havoc {
+		if (!n.st.born[o] || snap.born[o]) && snap.havoc[o] != e {
+			out = append(out, o.Name+"[*]")
+		}
+	}
+	sort.Strings(out)
+	return out
 }
